@@ -9,6 +9,7 @@
   A primitive may also refuse at the length budget; then it only marks the buffer unsuccessful.
 -/
 import RbModel.Lemmas.BufZipper
+import RbModel.Lemmas.GsubSingleSpec
 
 namespace RbModel.Buf
 
@@ -197,3 +198,90 @@ example : (match exampleBuf.moveTo 1 with
     | .error _ => false) = true := by decide
 
 end RbModel.Buf
+
+/-! ## Part 2: the interpreter refines the OpenType substitution model — single substitution (GSUB type 1)
+
+`Gsub.applyString` is the operational model of `apply_string` (in/out buffer, skipping iterator, `replace_glyph`,
+`sync`); `Spec.Subst.applyLookupFwd` is the model written from the OpenType text over plain glyph lists.  For a
+lookup all of whose subtables are single substitutions (format 1 or 2) the two give the same glyph string: same
+glyph ids, same clusters, same masks, for every font, every lookup flag / mark filtering set, every buffer.
+The other lookup types are tied to the specification by the `gsub-spec` search only (see DESIGN.md C06). -/
+namespace RbModel.Gsub
+open RbModel RbModel.Buf RbModel.Spec.Subst
+
+/-- what the specification sees of a buffer item -/
+def toG (x : Info) : G := { gid := x.gid, cluster := x.cluster, mask := x.mask }
+
+theorem toG_substInfo (f : Font) (l : Lookup) (lm : Nat) (x : Info) (hgid : x.gid < 65536)
+    (hsync : checkGlyphProperty f x l.props = !ignored f l.props (toG x)) :
+    toG (substInfo f lm l.props l.subtables x) = specStep f l lm (toG x) := by
+  unfold substInfo specStep
+  rw [hsync, Nat.mod_eq_of_lt hgid]
+  have hm : (toG x).mask = x.mask := rfl
+  have hg : (toG x).gid = x.gid := rfl
+  rw [hm, hg]
+  by_cases hc : (x.mask &&& lm != 0 && !ignored f l.props (toG x)) = true
+  · simp only [hc, if_true]
+    cases singleSubst? l.subtables x.gid with
+    | none => rfl
+    | some s => simp [toG, setGlyphProps]
+  · simp only [hc, Bool.false_eq_true, if_false]
+
+/-- **C06, single substitution**: running the streaming interpreter over a buffer equals applying the OpenType
+    model to the glyph list.  `hsync` says that the cached glyph properties agree with GDEF for the glyph ids in
+    the buffer (what `_hb_ot_layout_set_glyph_props` establishes, `glyphProps_sync` below). -/
+theorem C06_single_subst_refines_spec (l : Lookup) (hall : l.subtables.all Subtable.isSingle = true)
+    (c : Ctx) (fuel level : Nat)
+    (hsu : c.buf.successful = true) (hlen : c.buf.len ≤ c.buf.info.length) (hf : c.buf.len ≤ fuel)
+    (hgid : ∀ x ∈ c.buf.info.take c.buf.len, x.gid < 65536)
+    (hsync : ∀ x ∈ c.buf.info.take c.buf.len,
+      checkGlyphProperty c.font x l.props = !ignored c.font l.props (toG x)) :
+    ∃ c', applyString c l fuel = .ok c' ∧ c'.buf.len = c.buf.len ∧
+      (c'.buf.info.take c'.buf.len).map toG
+        = applyLookupFwd c.font level l c.lookupMask fuel ((c.buf.info.take c.buf.len).map toG) 0 := by
+  obtain ⟨c', hrun, hl, hil, _, _, hq⟩ := applyString_single l hall c fuel hsu hlen hf
+  refine ⟨c', hrun, hl, ?_⟩
+  rw [applyLookupFwd_single c.font level l c.lookupMask hall fuel _ 0 (by simp; omega) (Nat.zero_le _)]
+  simp only [List.take_zero, List.nil_append, List.drop_zero, List.map_map]
+  rw [hl]
+  apply List.ext_getElem?
+  intro q
+  simp only [List.getElem?_map, List.getElem?_take, hq]
+  by_cases hql : q < c.buf.len
+  · simp only [hql, if_true, Option.map_map]
+    cases hx : c.buf.info[q]? with
+    | none => rfl
+    | some x =>
+      have hmem : x ∈ c.buf.info.take c.buf.len := by
+        rw [List.mem_iff_getElem?]
+        exact ⟨q, by simp [List.getElem?_take, hql, hx]⟩
+      simp only [Option.map_some, Function.comp]
+      rw [toG_substInfo c.font l c.lookupMask x (hgid x hmem) (hsync x hmem)]
+  · simp [hql]
+
+/-- the hypothesis `hsync` of the theorem holds after `_hb_ot_layout_set_glyph_props` -/
+theorem glyphProps_sync (f : Font) (props : Nat) (x : Info) (hgid : x.gid < 65536) :
+    let y := setLigProps (setGlyphProps x (f.props (x.gid % 65536))) 0
+    checkGlyphProperty f y props = !ignored f props (toG y) := by
+  intro y
+  have hy : y.gid = x.gid := rfl
+  have hgp : glyphProps y = f.props x.gid % 65536 := by
+    show (setLigProps (setGlyphProps x (f.props (x.gid % 65536))) 0).var1 % 65536 = _
+    simp only [setLigProps, setGlyphProps, Nat.mod_eq_of_lt hgid]
+    omega
+  have hgp' : y.var1 % 65536 = f.props x.gid % 65536 := hgp
+  unfold ignored checkGlyphProperty
+  simp only [Bool.not_not, toG, hy, glyphProps, Nat.mod_mod, hgp', Nat.mod_eq_of_lt hgid]
+
+/-! non-vacuity: a font with a mark class, a lookup that ignores marks, a buffer with a base and a mark -/
+def exFont : Font := { hasGdef := true, hasGlyphClasses := true, glyphProps := [(1, GP.BASE_GLYPH), (2, GP.MARK), (11, GP.BASE_GLYPH)] }
+def exLookup : Lookup := { props := 0x0008, subtables := [.single1 [1, 2] 10] }
+def exCtx : Ctx := { font := exFont, lookupMask := 1, buf := { info := [⟨1,1,0,GP.BASE_GLYPH,0⟩, ⟨2,1,1,GP.MARK,0⟩, ⟨1,0,2,GP.BASE_GLYPH,0⟩], len := 3 } }
+
+example : exLookup.subtables.all Subtable.isSingle = true := by decide
+example : ∀ x ∈ exCtx.buf.info.take exCtx.buf.len, checkGlyphProperty exCtx.font x exLookup.props = !ignored exCtx.font exLookup.props (toG x) := by decide
+example : (match applyString exCtx exLookup 3 with
+    | .ok c' => (c'.buf.info.take c'.buf.len).map (·.gid) == [11, 2, 1]
+    | .error _ => false) = true := by decide
+
+end RbModel.Gsub
